@@ -99,7 +99,7 @@ def run(ctx):
                         if fn is None:
                             why = "manual Drop for %s not found in the facts" % ty
                         else:
-                            okc, reason = spine.manual_drop_conforms(fn)
+                            okc, reason = spine.manual_drop_conforms(fn, db.crate(dn[0]["crate"]))
                             if not okc:
                                 why = "manual Drop for %s is not iterative (%s)" % (ty, reason)
                     if why:
